@@ -73,6 +73,32 @@ class Ctx:
         self.oblig.append((list(self.pc), list(self.axioms), formula, label, kind))
 
 
+_SHIM_DIRS = None
+
+
+def _from_shim(e):
+    """is this exception an artefact of the verification shim (missing vocabulary, proxy misuse) rather than of the code under contract?
+    -> the innermost frame is a file of the framework, or an attribute is missing on a shim object"""
+    global _SHIM_DIRS
+    import os
+    import traceback
+
+    if _SHIM_DIRS is None:
+        root = os.path.dirname(os.path.dirname(os.path.abspath(__file__)))
+        _SHIM_DIRS = tuple(os.path.join(root, d) + os.sep for d in ("engine", "contracts", "standins", "checks"))
+    if isinstance(e, AttributeError):
+        obj = getattr(e, "obj", None)
+        mod = getattr(obj if isinstance(obj, type) else type(obj), "__module__", "") or ""
+        if mod.startswith(("engine.", "contracts.", "standins.", "checks.")):
+            return True
+    tb = traceback.extract_tb(e.__traceback__)
+    if tb and tb[-1].filename.startswith(_SHIM_DIRS):
+        return True
+    if isinstance(e, TypeError) and any(k in str(e) for k in ("SymInt", "SymBool", "Arr", "'G'", "SRot", "ufunc")):
+        return True
+    return False
+
+
 def explore(fn, max_paths=20000):
     """run fn() under all feasible paths; yields (ctx, ("ok", result) | ("exc", exception))"""
     stack = [[]]
@@ -85,10 +111,10 @@ def explore(fn, max_paths=20000):
             res = ("ok", fn())
         except PathAbort:
             continue
-        except Unsupported:
-            raise
+        except Unsupported as e:
+            res = ("unsupported", e)
         except Exception as e:  # pylint: disable=broad-except
-            res = ("exc", e)
+            res = ("unsupported", Unsupported(f"{type(e).__name__}: {e}")) if _from_shim(e) else ("exc", e)
         for i in range(len(dec), len(ctx.decisions)):
             if ctx.decisions[i] is True:
                 stack.append(ctx.decisions[:i] + [False])
